@@ -140,6 +140,7 @@ func (s *DefaultSaftyRules) CheckProposal(proposal, parent QuorumCertInterface, 
 	// 检查justify的所有vote签名
 	justifySigns := parent.GetSignsInfo()
 	validCnt := 0
+	counted := make(map[string]bool)
 	for _, v := range justifySigns {
 		if !isInSlice(v.GetAddress(), justifyValidators) {
 			continue
@@ -148,6 +149,11 @@ func (s *DefaultSaftyRules) CheckProposal(proposal, parent QuorumCertInterface, 
 		if ok, _ := s.Crypto.VerifyVoteMsgSign(v, parent.GetProposalId()); !ok {
 			return InvalidVoteSign
 		}
+		// a validator counts once, however often its signature is repeated
+		if counted[v.GetAddress()] {
+			continue
+		}
+		counted[v.GetAddress()] = true
 		validCnt++
 	}
 	if !s.CalVotesThreshold(validCnt, len(justifyValidators)) {
